@@ -91,7 +91,7 @@ NAMINGS = ("unrelated", "generated", "kwlike", "keyword")
 PATTERNS = ("pos", "kw", "mixed", "kw-rev", "kw-rot", "mixed-rev")
 RETS = ("array", "tuple", "dict")
 EXTRAS = ("single", "arg-expr", "twice", "nested2", "nested3", "chain", "same-arg-twice",
-          "twice-shared-first-arg", "twice-same-args", "caller-recomputes-body")
+          "twice-shared-first-arg", "twice-same-args", "caller-recomputes-body", "nested-kw-inner")
 
 
 def bounds(tier):
@@ -112,9 +112,11 @@ def enumerate_cases(tier, seed):
                     continue
                 for nm in NAMINGS:
                     for ex in EXTRAS:
+                        if ex == "nested-kw-inner" and pat != "pos":
+                            continue
                         cases.append({"body": bname, "ret": ret, "pattern": pat, "naming": nm, "extra": ex})
     if tier == "quick":
-        core = [c for c in cases if c["extra"] in ("single", "twice", "twice-shared-first-arg", "caller-recomputes-body")
+        core = [c for c in cases if c["extra"] in ("single", "twice", "twice-shared-first-arg", "caller-recomputes-body", "nested-kw-inner")
                 and c["naming"] in ("unrelated", "generated")]
         rest = [c for c in cases if c not in core]
         cases = core + runner.slice_by_seed(rest, seed, 3)
@@ -238,6 +240,18 @@ def run_case(case):  # noqa: C901
             r2 = fdef(**bind)
             results += as_list(r2, ret)
             ref_terms += substitute(outs, params, other)
+        elif ex == "nested-kw-inner":
+            # the outer function is traced with positional arguments, its body calls the traced function by keyword only:
+            # the nested callee's parameter names (in_<kw>) share nothing with the enclosing function's (in__pt_<i>)
+            def outer_kw(*a):
+                r = pt.trace_call(fn, **{p_[1].lower(): x_ + 1.0 for p_, x_ in zip(params, a)})
+                lst = [2.0 * x_ for x_ in as_list(r, ret)]
+                return lst[0] if ret == "array" else (tuple(lst) if ret == "tuple" else {f"r{i}": x_ for i, x_ in enumerate(lst)})
+            args = [B(a) for a in arg_terms]
+            r = pt.trace_call(outer_kw, *args)
+            results += as_list(r, ret)
+            inner_at = [["bin", "add", a, ["py", 1.0]] for a in arg_terms]
+            ref_terms += [["bin", "mul", ["py", 2.0], t] for t in substitute(outs, params, inner_at)]
         elif ex in ("nested2", "nested3"):
             # outer function applies the traced body to (param + 1) of each of its own parameters
             def outer(*a, **k):
